@@ -195,13 +195,14 @@ class KotlinModel:
         self.classes = {}
         self.funcs = {}
         self.callbacks = {}
+        self.by_pointer = set()   # JNA Structures without the ByValue marker: passed / returned as a pointer at the top level
         for root, _, fs in os.walk(outdir):
             for f in sorted(fs):
                 if f.endswith(".kt"):
                     self._parse(open(os.path.join(root, f)).read())
 
     def _parse(self, txt):
-        for m in re.finditer(r"(?:internal )?class (\w+)\s*:\s*(Structure\(\), Structure\.ByValue|Union\(\))\s*\{(.*?)\n\}", txt, re.S):
+        for m in re.finditer(r"(?:internal )?class (\w+)\s*:\s*(Structure\(\)(?:, Structure\.ByValue)?|Union\(\))\s*\{(.*?)\n\}", txt, re.S):
             name, kind, body = m.group(1), m.group(2), m.group(3)
             fields = [(fm.group(1), fm.group(2)) for fm in re.finditer(r"@JvmField\s+(?:internal )?var (\w+): ([\w?]+)", body)]
             order = None
@@ -209,6 +210,8 @@ class KotlinModel:
             if om:
                 order = re.findall(r'"(\w+)"', om.group(1))
             self.classes[name] = ("union" if kind.startswith("Union") else "struct", fields, order)
+            if kind.startswith("Structure") and "ByValue" not in kind:
+                self.by_pointer.add(name)
         for cm in re.finditer(r"interface (\w+)\s*:\s*Callback \{\s*fun invoke\(([^)]*)\)\s*:\s*([\w?]+)", txt):
             ps = [p.split(":", 1)[1].strip() for p in split_top(cm.group(2))] if cm.group(2).strip() else []
             self.callbacks[cm.group(1)] = (ps, cm.group(3))
@@ -247,7 +250,9 @@ class KotlinModel:
         if symbol not in self.funcs:
             return None
         ps, r = self.funcs[symbol]
-        return [self.ty(p) for p in ps], self.ty(r)
+        # (inside another Structure / Union a plain Structure field is laid out inline; only top-level positions differ)
+        top = lambda t: ("ptr", "Structure-without-ByValue") if t.strip() in self.by_pointer else self.ty(t)
+        return [top(p) for p in ps], top(r)
 
 
 # ---------------------------------------------------------------------------------------------
